@@ -16,7 +16,7 @@ import ast
 from dataclasses import dataclass, field
 from typing import Callable, Iterable
 
-from .repo import AnalysisError, ClassInfo, FuncInfo, Repo, body_of, dotted
+from .repo import AnalysisError, ClassInfo, FuncInfo, Repo, body_of, dotted, own_nodes
 from .resolve import Resolver
 
 MUTATORS = {
@@ -216,6 +216,25 @@ class PathEngine:
             if self.relevant(ev):
                 result = True
                 break
+        if not result and not isinstance(fi.node, ast.Lambda):
+            # branch / loop events exist only on enumerated paths: probe the
+            # filter with the tests and loops of the body, so that a helper
+            # which only decides something (returns inside a loop / an if) is
+            # entered when the rule asks for branches or loops
+            for n in own_nodes(fi.node):
+                probe = None
+                if isinstance(n, (ast.If, ast.While, ast.IfExp)):
+                    probe = Event("branch", n.test, fr, {"taken": True, "text": ast.unparse(n.test)[:100]})
+                elif isinstance(n, ast.For):
+                    probe = Event("loop", n, fr, {"phase": "enter"})
+                if probe is None:
+                    continue
+                try:
+                    if self.relevant(probe):
+                        result = True
+                        break
+                except Exception:
+                    continue
         if not result:
             for ev in evs:
                 if ev.kind != "call":
@@ -546,17 +565,28 @@ class PathEngine:
             name, kind = t.left.id, ("isnone" if isinstance(t.ops[0], ast.Is) else "isnotnone")
         else:
             return None
-        b = fr.bindings.get(name)
+        def stored_in(frame):
+            st_ = getattr(frame.fi, "_stored_names", None)
+            if st_ is None:
+                st_ = {x.id for x in ast.walk(frame.fi.node) if isinstance(x, ast.Name) and isinstance(x.ctx, (ast.Store, ast.Del))}
+                try:
+                    frame.fi._stored_names = st_
+                except Exception:  # pragma: no cover
+                    pass
+            return st_
+
+        # the literal may be handed down through several inlined frames
+        # (`subscribe=False` -> `super().__init__(d, subscribe=subscribe)`)
+        cur, b = fr, None
+        for _hop in range(6):
+            if cur.parent is None or name in stored_in(cur):
+                return None
+            b = cur.bindings.get(name)
+            if isinstance(b, ast.Name) and b.id in (cur.parent.fi.params or []):
+                cur, name = cur.parent, b.id
+                continue
+            break
         if not isinstance(b, ast.Constant):
-            return None
-        stores = getattr(fr.fi, "_stored_names", None)
-        if stores is None:
-            stores = {x.id for x in ast.walk(fr.fi.node) if isinstance(x, ast.Name) and isinstance(x.ctx, (ast.Store, ast.Del))}
-            try:
-                fr.fi._stored_names = stores
-            except Exception:  # pragma: no cover
-                pass
-        if name in stores:
             return None
         if kind == "truth":
             val = bool(b.value)
